@@ -10,6 +10,7 @@ import itertools
 import pickle
 
 from ..acc import Acc
+from .. import argforms as AF
 
 ID = "C13"
 LEVEL = "model_checking"
@@ -180,6 +181,14 @@ def observe(tname, t, model, where, fail):
     if n:
         subs.append(([n - 1, 0, 0], [n - 1, 0, 0]))
         subs.append((np.array([], dtype=np.int32), []))
+        # id arrays and masks that are views with a stride (the glue must not read them as contiguous)
+        ids = [n - 1] + list(range(n))
+        for k in (1, 2, 3, 5):
+            subs.append((AF.reform(np.array(ids, dtype=np.int32), k)[1], ids))
+        subs.append((AF.reform(np.array(ids, dtype=np.int64), 1)[1], ids))
+        msk = [j % 2 == 0 for j in range(n)]
+        for k in (1, 2, 3):
+            subs.append((AF.reform(np.array(msk, dtype=bool), k)[1], [j for j in range(n) if msk[j]]))
     for idx, want in subs:
         try:
             sub = t[idx]
@@ -377,7 +386,8 @@ class Sim:
                 except ValueError:
                     exp_err = True
                     idmap = None
-                ret = t.keep_rows(np.array(mask, dtype=bool))
+                form, karg = AF.reform(np.array(mask, dtype=bool), sum(mask) + len(mask))
+                ret = t.keep_rows(karg)
                 if idmap is not None and ret.tolist() != idmap:
                     fail("keep_rows-idmap", f"returned {ret.tolist()} expected {idmap}")
             elif name == "clear":
@@ -400,6 +410,8 @@ class Sim:
                 else:
                     exp_err = True
                     atomic = name != "set_columns"
+                # every column in a different memory layout (strided / reversed views, read-only ...)
+                d = {k: AF.reform(v, i + n)[1] for i, (k, v) in enumerate(sorted(d.items()))}
                 getattr(t, name)(**d)
             elif name == "packset":
                 col, variant = op[1], op[2]
@@ -445,7 +457,7 @@ class Sim:
                     else:
                         new_model = [dict(r, **{col: v}) for r, v in zip(model, vals)]
                     arr = np.array(vals, dtype=ty)
-                setattr(t, col, arr)
+                setattr(t, col, AF.reform(arr, n + len(col))[1])
             elif name == "drop_metadata":
                 new_model = [dict(r, metadata=()) for r in model]
                 t.drop_metadata(keep_schema=op[1])
